@@ -116,7 +116,7 @@ def checkCase (j : Json) : Except String Verdict := do
   -- history bookkeeping for the C04 monitor: per host, absolute lifetime of the chain's login
   let mut clock : Int := 0
   let mut chainLifetime : List (String × Int) := []
-  let mut pageStructure : Option String := none
+  let mut pageStructure : List (Nat × String) := []      -- status ↦ structure (the template branches on the code only)
   for st in steps do
     let inp := getJ st "in"
     let out := getJ st "out"
@@ -235,9 +235,9 @@ def checkCase (j : Json) : Except String Verdict := do
     -- C20: the proxy's error page has one structure, whatever text went into it (error parameter, validator messages …)
     if strD out "body" == "error-page" then
       let hs := strD out "htmlStructure"
-      match pageStructure with
-      | none => pageStructure := some hs
-      | some p => if p != hs then v := v.mon "C20" "page_structure_invariant" idx
+      match pageStructure.find? (·.1 == status) with
+      | none => pageStructure := (status, hs) :: pageStructure
+      | some (_, p) => if p != hs then v := v.mon "C20" "page_structure_invariant" idx
       if (hs.splitOn "<script").length > 1 then v := v.mon "C20" "page_structure_invariant" idx "script element"
     if (strD out "body").startsWith "json:" && (strD out "body") != "json:{\"error\":{}}" then v := v.mon "C20" "json_error_wellformed" idx (strD out "body")
     if ex.body == "json" then v := v.cmp idx "body.json" true ((strD out "body").startsWith "json:") ["C20"]
